@@ -251,7 +251,24 @@ func elementsAtOdds(s *ffi2abi.Schema) bool {
 	return s.Items == nil || elemAtOdds(s.Items, stripDim(s.Details.Type))
 }
 
-// some schema of the tree that carries details has an items chain (present at the first level) at odds
+// the members a schema describes (mirrors SpecExact.v members_of)
+func membersOf(s *ffi2abi.Schema) map[string]*ffi2abi.Schema {
+	switch s.Type {
+	case "object":
+		return s.Properties
+	case "array":
+		it := s.Items
+		for it != nil && it.Type == "array" {
+			it = it.Items
+		}
+		if it != nil {
+			return it.Properties
+		}
+	}
+	return nil
+}
+
+// the parameter schema, or a member at some depth, has an items chain (present at the first level) at odds
 func anyElementsAtOdds(s *ffi2abi.Schema) bool {
 	if s == nil {
 		return false
@@ -259,13 +276,14 @@ func anyElementsAtOdds(s *ffi2abi.Schema) bool {
 	if s.Items != nil && elementsAtOdds(s) {
 		return true
 	}
-	for _, m := range s.Properties {
+	for _, m := range membersOf(s) {
 		if anyElementsAtOdds(m) {
 			return true
 		}
 	}
-	return anyElementsAtOdds(s.Items)
+	return false
 }
+
 func memberAtOdds(s *ffi2abi.Schema) bool {
 	if s == nil {
 		return false
@@ -694,8 +712,13 @@ func (h *H) addFwd(a abi.ABI, origin string, inQuant bool) []pdesc {
 		et, _ := coqEntry(e)
 		eraw, _ := json.Marshal(e)
 		h.st.Hit(fmt.Sprintf("sig:class=%d", scls))
-		if scls == 0 && allExplicit(e.Inputs) {
-			h.st.Hit("sig:explicit-widths")
+		if scls == 0 {
+			// every entry with a signature, aliases (uint, int, fixed, ufixed) included since the helper writes them in full
+			if allExplicit(e.Inputs) {
+				h.st.Hit("sig:explicit-widths")
+			} else {
+				h.st.Hit("sig:with-aliases")
+			}
 			if s != hs {
 				h.st.ImplFailures = append(h.st.ImplFailures, map[string]interface{}{"what": "ABIMethodToSignature differs from the entry's signature", "entry": json.RawMessage(eraw), "signature": s, "helper": hs})
 			}
@@ -1331,7 +1354,7 @@ func main() {
 		{"x", `{"type":"object","details":{"type":"tuple"},"properties":{"a":{"type":"boolean","details":{"type":"uint256","index":0}}}}`},      // D20i: nested JSON type at odds
 		{"x", `{"type":"array","details":{"type":"tuple[][]"},"items":{"type":"array","items":{"type":"object","properties":{"a":{"type":"object","details":{"type":"string","index":0}}}}}}`}, // D20i under array levels
 		{"x", `{"type":"object","details":{"type":"tuple"},"properties":{"a":{"type":"string","details":{"type":"tuple","index":0}}}}`},          // D20i: string against a nested tuple
-		// D20k (fix 805ac6f): the element descriptions of an array against the element type, one items level per dimension
+		// D20l (fix 805ac6f): the element descriptions of an array against the element type, one items level per dimension
 		{"x", `{"type":"array","details":{"type":"uint256[]"},"items":{"type":"boolean"}}`},
 		{"x", `{"type":"array","details":{"type":"uint256[][]"},"items":{"oneOf":[{"type":"string"},{"type":"integer"}]}}`}, // one level for two dimensions
 		{"x", `{"type":"array","details":{"type":"tuple[]"},"items":{"type":"string","properties":{"a":{"type":"string","details":{"type":"string","index":0}}}}}`},
